@@ -25,7 +25,7 @@ PRODUCERS = {   # name -> (pre statements, kind, expression)
     "bundle-each": ([("decl", "Bundle", "bb", BUN)], "Bundle", B("*", V("bb"), I(2))),
     "bundle-filter": ([("decl", "Bundle", "bb", BUN)], "Bundle", ("cond", B(">", V("bb"), I(1)), V("bb"))),
 }
-CONSUMPTION = ["unconsumed", "repeated-anonymously", "consumed-once", "alias-first-consumed", "alias-both-unconsumed", "consumed-in-func",
+CONSUMPTION = ["unconsumed", "alias-param-clash", "alias-local-clash", "repeated-anonymously", "consumed-once", "alias-first-consumed", "alias-both-unconsumed", "consumed-in-func",
                "consumed-in-loop", "twice-same-expr", "two-outputs"]
 VAL = {"a": 5, "c": 3, "x": 2, "y": 6}
 
@@ -37,6 +37,19 @@ def mk(pname, cons, optimize):
     scalar = kind == "Signal"
     if cons == "unconsumed":
         pass
+    elif cons in ("alias-param-clash", "alias-local-clash"):
+        # an unconsumed alias `r2` of a value that has another consumer, while a called function has a parameter
+        # (or a local) that is spelled `r2` as well
+        if not scalar:
+            return None
+        if cons == "alias-param-clash":
+            body.append(("func", "g", [("Signal", "r2")], [], B("*", V("r2"), I(2))))
+        else:
+            body.append(("func", "g", [("Signal", "s")], [("decl", "Signal", "r2", B("+", V("s"), I(1)))], B("*", V("r2"), I(2))))
+        body.append(("decl", "Signal", "r2", V("r")))
+        e2 = ("call", "g", [V("r")])
+        body.append(("decl", "Signal", "q", e2))
+        outs = {"r2": V("r"), "q": e2}
     elif cons == "repeated-anonymously":
         # the same expression again, anonymously, inside a later statement: `r` itself is never referenced
         if pname in ("typed-const", "untyped-const", "bundle-const", "mem-read", "latch-read", "func-return"):
